@@ -41,6 +41,23 @@ def otherTerm (pi : Rat) (inv : Bool) (alt : Nat) (k : Kind) (a b : Rat) : Optio
       if a == 1 && b == 0 then
         Gen.expuUsesSf.map fun useSf => [⟨1, 0, 0, .cpole 1 al, if useSf && inv then -1 else 1, 0⟩]
       else none
+  | .ramp =>
+      -- `t*Heaviside(t)`: `similarity_shift` only rewrites function arguments, so the bare factor is not rescaled;
+      -- only the plain argument is modelled (anything else is left to the oracle)
+      if a == 1 && b == 0 then (lookup .ramp alt).map fun e => entryE pi inv e.terms else none
+  | .inv1 =>
+      if b == 0 then
+        -- 1/(a t) = (1/a)·(1/t): constant factor, table branch `other == 1/t`
+        (lookup .inv1 alt).map fun e => smulE (CQ.ofRat (1 / a)) (entryE pi inv e.terms)
+      else
+        -- 1/(a t + b) is taken by the `1/(c1 t + c0)` branch (`foo.is_complex` holds for a real symbol):
+        -- s = 2πj/a,  s·exp(b·v·s)·Heaviside(−v)
+        Gen.cpoleUsesSf.map fun useSf =>
+          let v : Rat := if useSf && inv then -1 else 1
+          [⟨⟨0, 2 * pi / a⟩, 0, v * b / a, .step, -v, 0⟩]
+  | .inv2 =>
+      -- 1/(a t)² = (1/a²)·(1/t²); a shifted argument has no function to drive `similarity_shift`: SymPy
+      if b == 0 then (lookup .inv2 alt).map fun e => smulE (CQ.ofRat (1 / (a * a))) (entryE pi inv e.terms) else none
   | k =>
       (lookup k alt).map fun e =>
         smulE (CQ.ofRat (1 / rabs a)) (modE (sg * b / a) (scaleE (1 / a) (entryE pi inv e.terms)))
@@ -71,8 +88,10 @@ def modelIFT (pi dt : Rat) (d : Dom) (alt : Nat) (g : E) : Option E := do
   modelSum pi true alt (scaleE (convFactor pi dt c) g)
 
 /-- `X_D(v_E)`: conversion method of the class of domain `d` -/
-def modelConv (pi dt : Rat) (d e : Dom) (g : E) : Option E := do
-  let c ← findConv d (some e)
-  some (scaleE (convFactor pi dt c) g)
+def modelConv (pi dt : Rat) (d e : Dom) (g : E) : Option E :=
+  -- transform.py: an argument of the expression's own class is a plain substitution (`expr.subs(arg)`)
+  if d == e then some g else do
+    let c ← findConv d (some e)
+    some (scaleE (convFactor pi dt c) g)
 
 end Lcapy.Fourier.Model
